@@ -455,6 +455,7 @@ def cases(tier, rng):
     import gaps
     for a in gaps.aztec_stuffing(rng, tier):
         L.append("az " + a)
+    L += [g for g in gaps.family(rng, tier, ("az",)) if g not in L]
     return L
 
 
